@@ -39,8 +39,16 @@ pub fn measure<R>(f: impl FnOnce() -> R) -> (R, usize, usize, Vec<usize>) {
     (r, n, bytes, sizes)
 }
 
+/// Requests above this size fail (null), as an exhausted allocator would: a changed crate that takes
+/// a length from the wrong bytes aborts at once instead of crawling through gigabytes of poison.
+/// No campaign stream is longer than a few hundred kilobytes.
+pub const REQUEST_CAP: usize = 1 << 30;
+
 unsafe impl GlobalAlloc for Counting {
     unsafe fn alloc(&self, l: Layout) -> *mut u8 {
+        if l.size() > REQUEST_CAP {
+            return core::ptr::null_mut();
+        }
         LIVE_BYTES.fetch_add(l.size() as isize, Ordering::SeqCst);
         LIVE_BLOCKS.fetch_add(1, Ordering::SeqCst);
         TOTAL_ALLOCATED.fetch_add(l.size(), Ordering::SeqCst);
@@ -59,6 +67,9 @@ unsafe impl GlobalAlloc for Counting {
         System.dealloc(p, l)
     }
     unsafe fn realloc(&self, p: *mut u8, l: Layout, new_size: usize) -> *mut u8 {
+        if new_size > REQUEST_CAP {
+            return core::ptr::null_mut();
+        }
         LIVE_BYTES.fetch_add(new_size as isize - l.size() as isize, Ordering::SeqCst);
         if new_size > l.size() {
             TOTAL_ALLOCATED.fetch_add(new_size - l.size(), Ordering::SeqCst);
